@@ -18,13 +18,14 @@ fn text(rng: &mut Rng) -> String {
         0 => String::new(),
         1 => "a".repeat(24),
         2 => "é😀".to_owned(),
-        3 => "x".repeat(rng.range_usize(255, 70_000)),
+        3 => "x".repeat(if rng.chance(1, 8) { rng.range_usize(255, 70_000) } else { rng.range_usize(255, 300) }),
         _ => format!("t{}", rng.below(50)),
     }
 }
 
-fn gen(rng: &mut Rng, depth: usize, classes: &mut Vec<&'static str>) -> V {
-    if depth == 0 || !rng.chance(2, 5) {
+fn gen(rng: &mut Rng, depth: usize, classes: &mut Vec<&'static str>, budget: &mut usize) -> V {
+    *budget = budget.saturating_sub(1);
+    if depth == 0 || *budget == 0 || !rng.chance(2, 5) {
         return match rng.below(8) {
             0 => V::Null,
             1 => V::Bool(rng.chance(1, 2)),
@@ -38,19 +39,20 @@ fn gen(rng: &mut Rng, depth: usize, classes: &mut Vec<&'static str>) -> V {
                 let v = (rng.next_u64() >> (64 - w)) as i128;
                 V::Integer(if rng.chance(1, 2) { v } else { -1 - v })
             }
-            5 => V::Bytes(rng.bytes(rng.pick(&[0usize, 1, 23, 24, 255, 256, 300]).to_owned())),
+            5 => V::Bytes({ let n_ = rng.pick(&[0usize, 1, 23, 24, 255, 256, 300]).to_owned(); rng.bytes(n_) }),
             _ => V::Text(text(rng)),
         };
     }
     if rng.chance(1, 2) {
         classes.push("array");
         let n = *rng.pick(&[0usize, 1, 2, 3, 23, 24, 256]);
-        V::Array((0..n).map(|_| gen(rng, depth - 1, classes)).collect())
+        let n = n.min(*budget);
+        V::Array((0..n).map(|_| gen(rng, depth - 1, classes, budget)).collect())
     } else {
         classes.push("map");
         let n = *rng.pick(&[0usize, 1, 2, 3, 5, 24]);
         let mut entries = Vec::new();
-        for i in 0..n {
+        for i in 0..n.min(*budget) {
             let k = match rng.below(5) {
                 0 => V::Integer(*rng.pick(&[0i128, 9, 10, 23, 24, 255, 256, -1, -24, -25])),
                 1 => V::Text((*rng.pick(&["a", "b", "aa", "ab", "", "z", "B"])).to_owned()),
@@ -58,7 +60,7 @@ fn gen(rng: &mut Rng, depth: usize, classes: &mut Vec<&'static str>) -> V {
                 3 => V::Array(vec![V::Integer(i as i128)]),
                 _ => V::Text(format!("key{i}")),
             };
-            entries.push((k, gen(rng, depth - 1, classes)));
+            entries.push((k, gen(rng, depth - 1, classes, budget)));
         }
         V::Map(entries)
     }
@@ -120,7 +122,7 @@ fn rt(rng: &mut Rng) -> Rt {
             classes.push("all-int-boundaries");
             V::Array(INTS.iter().map(|n| V::Integer(*n)).collect())
         }
-        _ => gen(rng, 5, &mut classes),
+        _ => gen(rng, 5, &mut classes, &mut 400),
     };
     let b1 = match encode_canonical_cbor_v1(&v) {
         Ok(b) => b,
@@ -160,7 +162,7 @@ fn dec(b: &[u8]) -> Dec {
     }
 }
 fn touch(b: &[u8]) -> Result<(), String> {
-    decode_canonical_cbor_v1(b).map(|v| drop(v)).map_err(|e| label(&e.kind()))
+    decode_canonical_cbor_v1(b).map(|_| ()).map_err(|e| label(&e.kind()))
 }
 
 pub fn codecs() -> Vec<Codec> {
@@ -175,5 +177,6 @@ pub fn codecs() -> Vec<Codec> {
         chunks: &[],
         needs_kernel: false,
         in_c12: true,
+            in_c13: true,
     }]
 }
